@@ -973,6 +973,9 @@ func init() {
 			lockStress(c, rt, 900)
 		}
 		cbPolicyBeforeData(c)
+		for _, rt := range []string{"rds", "eds"} {
+			evictDuringUpdate(c, rt)
+		}
 		for _, rt := range []string{"rds", "cds"} {
 			handlerPanic(c, rt)
 		}
